@@ -48,7 +48,8 @@ fn check_value(ctx: &mut Ctx, name: &str, d: &[usize], vals_in: &[f64], kind: &O
     for tracked in [false, true] {
         let a = if tracked { arr(d, vals_in).tracked() } else { arr(d, vals_in) };
         match guard(|| {
-            let r = kind.apply_corgi(&[&a], 0);
+            // (the node id selects between the two spellings of a scalar product, `&a * s` and `s * &a`)
+            let r = kind.apply_corgi(&[&a], d.len() + vals_in.len());
             (r.dimensions().to_vec(), vals(&r), is_tracked(&r))
         }) {
             Ok(x) => results.push(x),
